@@ -61,6 +61,11 @@ class Module(ModelObject):
 class StateM(Module):
     """State: compactify() drops the dead particles (changes the sequence iff there are any)."""
 
+    def pv_len(self, cx):
+        n = z3.Int("n_particles_in_state")
+        cx.assume(n >= 0)
+        return n
+
     def pv_getattr(self, cx, name):
         if name == "compactify":
             me = self
